@@ -69,6 +69,20 @@ def plan(tier, seed):
         for same in (True, False):
             for pre in (True, False):
                 out.append(('reset_hard', {'line': li, 'same': same, 'pre_resolved': pre}))
+    for spec in ({'spec': 'none'}, {'spec': 'file'}, {'spec': 'dir'}, {'spec': 'dir', 'slash': True}, {'spec': 'glob'}):
+        out.append(('stash_scope', spec))
+    for li in range(len(PRE_RESET_LINES)):
+        out.append(('pre_reset', {'line': li}))
+    for cmd, lines in MERGE_LINES.items():
+        for li in range(len(lines)):
+            for dirty in (True, False):
+                out.append(('merge_checkout', {'cmd': cmd, 'line': li, 'dirty': dirty}))
+    for cmd, lines in FORCE_LINES.items():
+        for li in range(len(lines)):
+            for same in (True, False):
+                if not same and 'main' not in lines[li]:
+                    continue      # without a branch name HEAD cannot move
+                out.append(('force_checkout', {'cmd': cmd, 'line': li, 'same': same}))
     nent = 2 if tier == 'quick' else 3
     for init in (False, True):
         for n in range(0, nent + 1):
@@ -101,6 +115,60 @@ def install(M):
     M.env['git::repository::Reference::target'] = ref_target
     M.env['commands::hooks::reset_hooks::resolve_tree_ish_to_commit'] = resolve_tree_ish
     M.env['commands::hooks::commit_hooks::get_commit_default_author'] = default_author
+
+    # the --merge checkout / switch obligation watches the order of two effects; everywhere else the real code runs
+    def real(P, c, args):
+        cand = P.M.candidate(c.raw)
+        if cand is None:
+            raise Unsupported('no MIR for %s' % c.raw)
+        fn = P.M.mir.get(cand)
+        return P.run_fn(fn, P._untuple(fn, args, c))
+
+    def checkpoint_run(P, c, args, dt):
+        if not P.state.get('c03_merge'):
+            return real(P, c, args)
+        kind = args[2]
+        P.events.append(('checkpoint_run', getattr(kind, 'var', None)))
+        return ok(tup(usize(0), usize(0), usize(0)))
+
+    def va_from_log(P, c, args, dt):
+        if not P.state.get('c03_merge'):
+            return real(P, c, args)
+        P.events.append(('va_capture',))
+        ent = []
+        for f_ in P.state['c03_merge'].get('va_files', ['f']):
+            la = mk_struct(P.M, LATTR, start_line=Sc(1, 32), end_line=Sc(2, 32), author_id=pystring('s1'), overrode=none())
+            ent.append([pystring(f_), tup(VecV([]), VecV([la] if P.state['c03_merge'].get('va_files') else []))])
+        return ok(mk_struct(P.M, 'authorship::virtual_attribution::VirtualAttributions', repo=Agg(REPO, []), base_commit=pystring('oldhead'),
+                            attributions=MapV('hash', ent, 'map'), file_contents=MapV('hash', [], 'map'),
+                            prompts=MapV('btree', [], 'map'), ts=Sc(1, 128), blame_start_commit=none()))
+
+    def dirty_names(P, c, args, dt):
+        if not P.state.get('c03_merge'):
+            return real(P, c, args)
+        return ok(MapV('hash', [[pystring('f'), None]] if P.state['c03_merge'].get('dirty') else [], 'set'))
+
+    def require_head(P, c, args, dt):
+        if not P.state.get('c03_merge'):
+            return real(P, c, args)
+        return unit()
+    def stash_sha(P, c, args, dt):
+        return ok(pystring('stashsha'))
+
+    def stash_note(P, c, args, dt):
+        P.events.append(('stash_note', list(as_bytes(args[2]))))
+        return ok(unit())
+
+    def stash_delete(P, c, args, dt):
+        P.events.append(('stash_delete', [list(as_bytes(x)) for x in elems_of(args[2])]))
+        return ok(unit())
+    M.env['commands::hooks::stash_hooks::resolve_stash_to_sha'] = stash_sha
+    M.env['commands::hooks::stash_hooks::save_stash_note'] = stash_note
+    M.env['commands::hooks::stash_hooks::delete_working_log_for_files'] = stash_delete
+    M.env['commands::checkpoint::run'] = checkpoint_run
+    M.env['authorship::virtual_attribution::VirtualAttributions::from_just_working_log'] = va_from_log
+    M.env['git::status::Repository::get_staged_and_unstaged_filenames'] = dirty_names
+    M.env['git::repository::Repository::require_pre_command_head'] = require_head
 
 
 def mk_wl(M):
@@ -379,12 +447,212 @@ def ob_reset_hard(h, shape):
     h.sample = h.witness()
 
 
-OBLIGATIONS = {'batch': ob_batch, 'checkout_paths': ob_checkout_paths, 'reset': ob_reset, 'fold': ob_fold, 'reset_hard': ob_reset_hard}
+FORCE_LINES = {
+    'checkout': [['-f'], ['--force'], ['-f', 'main'], ['--force', 'main'], ['-f', 'HEAD']],
+    'switch': [['--discard-changes', 'main'], ['-f', 'main'], ['--force', 'main']],
+}
+
+
+def ob_force_checkout(h, shape):
+    """`git checkout -f [<branch>]` / `git switch --discard-changes <branch>` succeeded: the uncommitted work is gone,
+    and so must be the pending attribution of the commit that was checked out before - also when the command stays
+    on the same commit (otherwise whatever a person types next at those line numbers is claimed for the session)"""
+    P = h.P
+    M = P.M
+    cmd = shape['cmd']
+    argv = [cmd] + FORCE_LINES[cmd][shape['line']]
+    old = 'oldhead'
+    new = old if shape['same'] else 'other'
+    repo = mk_repo(M)
+    fields = M.src.struct_fields(REPO)
+    repo.f[fields.index('pre_command_base_commit')] = some(pystring(old))
+    wl_dir = '/w/.git/ai/working_logs/' + old
+    other_dir = '/w/.git/ai/working_logs/unrelated'
+    P.state['fs'] = {wl_dir + '/INITIAL': pystring('{"files":{},"prompts":{}}'), wl_dir + '/checkpoints.jsonl': pystring('x'),
+                     wl_dir + '/blobs/b0': pystring('y'), other_dir + '/checkpoints.jsonl': pystring('z')}
+    P.state['c03_head'] = new
+    P.state['c03_resolve'] = new
+    h.inputs_struct = {'force_argv': argv, 'same': shape['same']}
+    parsed = P.call_named('git::cli_parser::parse_git_cli_args', [SliceRef(VecV([pystring(x) for x in argv]), 0, len(argv))])
+    status = Opaque('ExitStatus', {'code': some(Sc(0, 32, True)), 'signal': none()})
+    CTX = 'commands::git_handlers::CommandHooksContext'
+    ctx = Agg(CTX, [none() for _ in M.src.struct_fields(CTX)])
+    fn = 'commands::hooks::checkout_hooks::post_checkout_hook' if cmd == 'checkout' else 'commands::hooks::switch_hooks::post_switch_hook'
+    try:
+        P.call_named(fn, [Ref(Cell(parsed)), Ref(Cell(repo)), status, Ref(Cell(ctx))])
+    except Panic as e:
+        h.panic('K2-force-checkout-no-panic', e.msg)
+        return
+    fs = P.state['fs']
+    left = sorted(k for k in fs if k == wl_dir or k.startswith(wl_dir + '/'))
+    moved = sorted(k for k in fs if k.startswith('/w/.git/ai/working_logs/' + new + '/')) if new != old else []
+    h.require(not left and not moved, 'K2-forced-checkout-discards-pending-attribution',
+              'after `git %s` (HEAD %s) the pending attribution of the old HEAD is still there: %r' % (' '.join(argv), 'unchanged' if shape['same'] else 'moved', left + moved))
+    h.require(any(k.startswith(other_dir + '/') for k in fs), 'K2-forced-checkout-leaves-other-working-logs', 'another base commit\'s working log was removed')
+    h.sample = h.witness()
+
+
+MERGE_LINES = {'checkout': [['-m', 'main'], ['--merge', 'main'], ['main']], 'switch': [['-m', 'main'], ['--merge', 'main'], ['main']]}
+
+
+def ob_merge_checkout(h, shape):
+    """`git checkout --merge` / `git switch --merge` carries the uncommitted work to another commit and git-ai carries
+    the pending attribution along by line number, captured before git runs.  What a person typed since the last
+    checkpoint is only known to a checkpoint: a Human checkpoint must be taken before the capture (a necessary
+    condition: without it the captured numbers describe an older text and the person's lines are claimed for a session)"""
+    P = h.P
+    M = P.M
+    cmd = shape['cmd']
+    argv = [cmd] + MERGE_LINES[cmd][shape['line']]
+    P.state['c03_merge'] = {'dirty': shape['dirty']}
+    P.state['c03_head'] = 'oldhead'
+    repo = mk_repo(M)
+    h.inputs_struct = {'merge_argv': argv, 'dirty': shape['dirty']}
+    parsed = P.call_named('git::cli_parser::parse_git_cli_args', [SliceRef(VecV([pystring(x) for x in argv]), 0, len(argv))])
+    CTX = 'commands::git_handlers::CommandHooksContext'
+    ctx = Agg(CTX, [none() for _ in M.src.struct_fields(CTX)])
+    fn = 'commands::hooks::checkout_hooks::pre_checkout_hook' if cmd == 'checkout' else 'commands::hooks::switch_hooks::pre_switch_hook'
+    try:
+        P.call_named(fn, [Ref(Cell(parsed)), Ref(Cell(repo)), Ref(Cell(ctx))])
+    except Panic as e:
+        h.panic('K2-merge-checkout-no-panic', e.msg)
+        return
+    ev = [e for e in P.events if e[0] in ('checkpoint_run', 'va_capture')]
+    cap = [i for i, e in enumerate(ev) if e[0] == 'va_capture']
+    is_merge = MERGE_LINES[cmd][shape['line']][0] in ('-m', '--merge')
+    if is_merge and shape['dirty']:
+        h.require(len(cap) == 1, 'K2-merge-checkout-captures-pending-attribution', 'pending attribution was not captured before `git %s`' % ' '.join(argv))
+    if cap:
+        before = [e for e in ev[:cap[0]] if e[0] == 'checkpoint_run' and e[1] == 'Human']
+        h.require(bool(before), 'K2-merge-checkout-records-the-persons-edits-first',
+                  '`git %s`: the pending attribution is captured without a Human checkpoint first, so what a person typed since the last checkpoint keeps the line numbers of the session' % ' '.join(argv))
+    else:
+        h.require(True, 'K2-merge-checkout-nothing-to-capture')
+    h.sample = h.witness()
+
+
+PRE_RESET_LINES = [['--soft', 'HEAD~1'], ['--mixed', 'HEAD~1'], ['HEAD~1'], ['--hard', 'HEAD~1'], ['--keep', 'HEAD~1'], ['--merge', 'HEAD~1'], ['--soft'], ['HEAD', '--', 'f']]
+
+
+def ob_pre_reset(h, shape):
+    """every reset rewrites the pending attribution from the line numbers the working log holds; what a person typed
+    since the last checkpoint is only known to a checkpoint, so the pre-reset hook takes a Human one whatever the mode
+    (a necessary condition, as for --merge checkouts)"""
+    P = h.P
+    M = P.M
+    argv = ['reset'] + PRE_RESET_LINES[shape['line']]
+    P.state['c03_merge'] = {'dirty': True}
+    P.state['c03_head'] = 'oldhead'
+    P.state['c03_resolve'] = 'other'
+    repo = mk_repo(M)
+    h.inputs_struct = {'pre_reset_argv': argv}
+    parsed = P.call_named('git::cli_parser::parse_git_cli_args', [SliceRef(VecV([pystring(x) for x in argv]), 0, len(argv))])
+    try:
+        P.call_named('commands::hooks::reset_hooks::pre_reset_hook', [Ref(Cell(parsed)), Ref(Cell(repo))])
+    except Panic as e:
+        h.panic('K2-pre-reset-no-panic', e.msg)
+        return
+    took = [e for e in P.events if e[0] == 'checkpoint_run' and e[1] == 'Human']
+    h.require(bool(took), 'K2-reset-records-the-persons-edits-first', '`git %s`: no Human checkpoint is taken before the reset' % ' '.join(argv))
+    h.sample = h.witness()
+
+
+def ob_stash_scope(h, shape):
+    """`git stash push -- <pathspec>` takes some files out of the work tree; the note kept for the stash (and written back
+    to INITIAL by `stash pop`, at whatever commit is checked out then) must carry the pending attribution of exactly the
+    stashed files - a claim for a file that stayed behind would come back later over whatever a person wrote there"""
+    P = h.P
+    M = P.M
+    files = ['a.txt', 'b.txt', 'dir/c.txt']
+    P.state['c03_merge'] = {'dirty': True, 'va_files': files}
+    P.state['c03_head'] = 'oldhead'
+    kind = shape['spec']
+    if kind == 'file':
+        spec = [h.byte_in('p0', [97, 98, 122])] + list(b'.txt')
+    elif kind == 'dir':
+        spec = list(b'di') + [h.byte_in('p0', [114, 120])] + ([47] if shape.get('slash') else [])
+    elif kind == 'glob':
+        spec = [h.byte_in('p0', [97, 98, 100])] + list(b'*')
+    else:
+        spec = None
+    specs = VecV([StringV(list(spec))] if spec is not None else [])
+    h.inputs_struct = {'files': files, 'stash_pathspec': ByteStr(spec) if spec is not None else None}
+    repo = mk_repo(M)
+    try:
+        r = P.call_named('commands::hooks::stash_hooks::save_stash_authorship_log', [Ref(Cell(repo)), SliceRef(specs, 0, len(specs.e))])
+    except Panic as e:
+        h.panic('K2-stash-no-panic', e.msg)
+        return
+    h.require(r.var == 'Ok', 'K2-stash-save-ok', 'saving the stash attribution failed')
+
+    def stashed(f):
+        fb = list(f.encode())
+        if spec is None:
+            return True
+        conds = []
+        if len(fb) == len(spec):
+            conds.append(bytes_eq(fb, list(spec)))
+        if kind == 'dir':
+            pre = list(spec) if shape.get('slash') else list(spec) + [47]
+            if len(fb) >= len(pre):
+                conds.append(bytes_eq(fb[:len(pre)], pre))
+        if kind == 'glob':
+            pre = list(spec[:-1])
+            conds.append(bytes_eq(fb[:len(pre)], pre))
+        return any(P.branch(c) if not isinstance(c, bool) else c for c in conds)
+    want = [f for f in files if stashed(f)]
+    notes = [e[1] for e in P.events if e[0] == 'stash_note']
+    if not want:
+        h.require(not notes, 'K2-stash-note-carries-exactly-the-stashed-files', 'a note was written although no file with pending attribution was stashed')
+    else:
+        h.require(len(notes) == 1, 'K2-stash-note-written', '%d stash notes written' % len(notes))
+        if len(notes) == 1:
+            text = bytes(concrete_bytes(notes[0])).decode()
+            listed = [ln for ln in text.split('\n---')[0].split('\n') if ln and not ln.startswith(' ')]
+            h.require(sorted(listed) == sorted(want), 'K2-stash-note-carries-exactly-the-stashed-files',
+                      'stash pathspec %r: the note lists %r, the stashed files with pending attribution are %r' % (bytes(concrete_bytes(spec) or b'?').decode() if spec is not None else None, listed, want))
+    h.sample = h.witness()
+
+
+OBLIGATIONS = {'stash_scope': ob_stash_scope, 'pre_reset': ob_pre_reset, 'merge_checkout': ob_merge_checkout, 'force_checkout': ob_force_checkout, 'batch': ob_batch, 'checkout_paths': ob_checkout_paths, 'reset': ob_reset, 'fold': ob_fold, 'reset_hard': ob_reset_hard}
+
+
+def extra_checks(tier, seed, native):
+    """a recorded finding that lives in a concrete history rather than in one function: a person stages a line, an agent
+    rewrites it in the work tree (reported, not staged), the index is committed - the committed line is the person's"""
+    out = {'validated': 0, 'inconclusive': [], 'violations': [], 'known_seen': []}
+    try:
+        r = native('c03_staged_then_rewritten', {})
+    except Exception as e:
+        out['inconclusive'].append('the staged-then-rewritten history could not be staged: %s: %s' % (type(e).__name__, e))
+        return out
+    if 'panic' in r or not r.get('ok'):
+        out['inconclusive'].append('the staged-then-rewritten history could not be staged: %r' % (r,))
+    elif r.get('sessions_claiming_line_3'):
+        out['known_seen'].append(('staged-human-line-rewritten-unstaged-by-agent', r))
+    else:
+        out['validated'] += 1
+    return out
 
 
 def replay(v, native):
     inp = v['inputs']
-    if 'argv' in inp:
+    if 'stash_pathspec' in inp:
+        r = native('c03_stash_scope', inp)
+        if 'panic' in r:
+            return {'reproduced': v['kind'] == 'panic', 'native': r}
+        if v['kind'] == 'panic' or not r.get('stashed'):
+            return {'reproduced': False, 'native': r}
+        bad = {'K2-stash-note-carries-exactly-the-stashed-files': sorted(r['listed']) != sorted(r['stashed_files']),
+               'K2-stash-note-written': bool(r['stashed_files']) and not r['listed']}
+        return {'reproduced': bool(bad.get(v['obligation'])), 'native': r}
+    if 'pre_reset_argv' in inp:
+        r = native('c03_pre_reset', inp)
+    elif 'merge_argv' in inp:
+        r = native('c03_merge_checkout', inp)
+    elif 'force_argv' in inp:
+        r = native('c03_force_checkout', inp)
+    elif 'argv' in inp:
         r = native('c03_reset_hard', inp)
     elif 'entries' in inp:
         r = native('c03_fold', inp)
